@@ -46,3 +46,73 @@ func VerifProcessEnd(coordinator bool, sig tssCommon.SignatureData) (got interfa
 		return nil, false
 	}
 }
+
+// VerifProcessEndChan runs the real processEndMessage against a result channel of capacity `cap`
+// whose reader is either parked on the channel from the start (late = false) or starts reading only
+// after processEndMessage has returned / has stayed blocked for `grace` (late = true: a consumer
+// that is busy at the moment the session ends, e.g. the EVM executor inside its periodic check).
+// It returns every value the reader received and whether processEndMessage returned.
+func VerifProcessEndChan(coordinator bool, sig tssCommon.SignatureData, cap int, late bool, grace time.Duration) (got []interface{}, returned bool) {
+	res := make(chan interface{}, cap)
+	s := &Signing{
+		BaseTss:     common.BaseTss{Log: zerolog.Nop(), Cancel: func() {}},
+		coordinator: coordinator,
+		resultChn:   res,
+	}
+	end := make(chan tssCommon.SignatureData)
+	ctx, cancel := context.WithCancel(context.Background())
+	defer cancel()
+	done := make(chan error, 1)
+	stop := make(chan struct{})
+	readerDone := make(chan struct{})
+	reader := func() {
+		defer close(readerDone)
+		for {
+			select {
+			case v := <-res:
+				got = append(got, v)
+			case <-stop:
+				for {
+					select {
+					case v := <-res:
+						got = append(got, v)
+					case <-time.After(100 * time.Millisecond):
+						return
+					}
+				}
+			}
+		}
+	}
+	if !late {
+		go reader()
+	}
+	go func() { done <- s.processEndMessage(ctx, end) }()
+	select {
+	case end <- sig:
+	case <-time.After(20 * time.Second):
+		close(stop)
+		if late {
+			go reader()
+		}
+		<-readerDone
+		return got, false
+	}
+	if late {
+		select {
+		case <-done:
+			returned = true
+		case <-time.After(grace):
+		}
+		go reader()
+	}
+	if !returned {
+		select {
+		case <-done:
+			returned = true
+		case <-time.After(20 * time.Second):
+		}
+	}
+	close(stop)
+	<-readerDone
+	return got, returned
+}
